@@ -223,6 +223,14 @@ Proof.
     exists s2, (r :: rs). split; [reflexivity|]. split; [exact Hi2|]. cbn. lia.
 Qed.
 
+Lemma stm_no_panic ops :
+  exists s rs, stm_run StmFixed stm_init ops = Ok (s, rs) /\ length rs = length ops /\
+               stm_bytes s = Ok (stm_unread s).
+Proof.
+  destruct (stm_run_total ops stm_init stm_inv_init) as (s & rs & H1 & H2 & H3).
+  exists s, rs. split; [exact H1|]. split; [exact H3|]. exact (stm_bytes_ok s H2).
+Qed.
+
 Lemma stm_run_inv ops : forall s s' rs,
   stm_inv s -> stm_run StmFixed s ops = Ok (s', rs) -> stm_inv s'.
 Proof.
